@@ -313,6 +313,14 @@ func (r ValueRange) Includes(v Value) Value {
 	case *refinementNumber:
 		minVal, minInc := r.NumberLowerBound()
 		maxVal, maxInc := r.NumberUpperBound()
+		// An absent bound is reported as an exclusive infinity, but the
+		// infinities are themselves numbers, which an unbounded side admits.
+		if minVal == NegativeInfinity {
+			minInc = true
+		}
+		if maxVal == PositiveInfinity {
+			maxInc = true
+		}
 		var minOk, maxOk Value
 		if minInc {
 			minOk = v.GreaterThanOrEqualTo(minVal)
